@@ -137,13 +137,16 @@ def intervals(n, dt):
         ("start-negative", t(-0.5), t(m - 1)),
         ("end-beyond", t(1), t(m + 1)),
         ("end-just-beyond", t(1), t(m + 0.4)),
+        # beyond the last sample by 5e-10 and 2e-12 of its time: outside the record, however little
+        ("end-ppb-beyond", t(1), t(m) * (1 + 5e-10)),
+        ("end-ppt-beyond", t(1), t(m) * (1 + 2e-12)),
         ("empty", t(2), t(2)),
         ("inverted", t(3), t(1)),
     ]
 
 
 MENU_INTERVALS = ("on-sample", "between", "between-up", "half-way", "whole-inside",
-                  "single-sample", "start-negative", "end-just-beyond")
+                  "single-sample", "start-negative", "end-just-beyond", "end-ppb-beyond", "end-ppt-beyond")
 
 
 # which of the three given series is handed to the constructor as (ns, ew, vt): the five ways in which
@@ -152,7 +155,7 @@ PATTERNS_QUICK = ((0, 1, 2), (0, 0, 2), (0, 1, 0), (0, 1, 1), (0, 0, 0))
 PATTERNS_ALL = tuple((i, j, k) for i in range(3) for j in range(3) for k in range(3))
 # states reached by at most WIDE_DEPTH[tier] operations get every index triple and three trims of the
 # recording so built, deeper states the five partition patterns and one trim
-CONSTRUCTED_TRIMS = {"narrow": ("between",), "wide": ("between", "single-sample", "end-just-beyond")}
+CONSTRUCTED_TRIMS = {"narrow": ("between",), "wide": ("between", "single-sample", "end-just-beyond", "end-ppb-beyond")}
 WIDE_DEPTH = {"quick": 0, "thorough": 1}
 
 
